@@ -301,6 +301,16 @@ class ExprMixin:
                 f = self.ctx.facts.get(unk.path)
                 if isinstance(f, tuple) and f[0] == "notstr" and known.s in f[1]:
                     return BoolV(opn == "ne")
+                dom = self.str_domain(unk.path)
+                if dom:
+                    excl = f[1] if isinstance(f, tuple) and f[0] == "notstr" else ()
+                    left = [d for d in dom if d not in excl]
+                    if known.s not in left:
+                        return BoolV(opn == "ne")
+                    if left == [known.s]:
+                        return BoolV(opn == "eq")
+                    if unk.path not in self.cfg.str_domains:
+                        self.cfg.str_domains[unk.path] = dom
                 c = ("streq", unk.path, known.s)
                 return BoolV(None, c if opn == "eq" else ("not", c))
             c = ("streq2", str(l.path), str(r.path))
@@ -575,6 +585,11 @@ class ExprMixin:
                 return StrV(f[1], v.path)
             if isinstance(f, tuple) and f[0] == "notstr" and s in f[1]:
                 continue
+            excl = f[1] if isinstance(f, tuple) and f[0] == "notstr" else ()
+            left = [d for d in dom if d not in excl]
+            if len(left) == 1:
+                self.ctx.facts[v.path] = ("str", left[0])
+                return StrV(left[0], v.path)
             if self.ctx.decide(("streq", v.path, s), frame.loc(node)):
                 return StrV(s, v.path)
         f = self.ctx.facts.get(v.path)
